@@ -5,7 +5,7 @@
    emits (forM2_ for `for x, y in zip(xs, ys)`) with the lemmas the tie tactic uses to bring loops of assertions to
    the forallb / forall2b form of Model/Close.v, and extensionality of the loop combinators (a respelt loop body). *)
 From Coq Require Import Bool List String Arith.
-From Demes Require Import Base.Num Base.Py Model.MDM Model.Close Model.Resolve Model.Rename Spec.Valid Proofs.ResolveInv.
+From Demes Require Import Base.Num Base.Py Model.MDM Model.Close Model.Resolve Model.Rename Model.Ancestry Spec.Valid Proofs.ResolveInv.
 Import ListNotations.
 Local Open Scope string_scope.
 Local Open Scope list_scope.
@@ -89,6 +89,56 @@ Proof. destruct m as [[]|e]; reflexivity. Qed.
 (* valid_deme_name(self, attribute, value) (demes/demes.py), which the model inlines where it validates a name
    (Model/Resolve.v deme_name_of, Model/Rename.v rename_demes) *)
 Definition valid_deme_name (value : string) : res unit := raise_if (negb (is_identifier value)) ValueErr.
+
+(* ---- accumulation into a local dict of lists (Graph.successors / Graph.predecessors) ----
+   `d[k].append(x)` raises KeyError when k is not a key of d, where the model's append_to (Model/Ancestry.v) returns d
+   unchanged: the translator spells the statement dict_append, which keeps the KeyError, and the tie has to prove the
+   key present (it is, because of a preceding setdefault) before it can pass to append_to. *)
+Definition dict_append (k x : string) (d : ndict) : res ndict :=
+  if mem_key k d then Ok (append_to k x d) else Err KeyErr.
+
+Lemma dict_append_ok k x d : mem_key k d = true -> dict_append k x d = Ok (append_to k x d).
+Proof. intro H. unfold dict_append. rewrite H. reflexivity. Qed.
+
+Lemma mem_key_app {A} k (d1 d2 : list (string * A)) : mem_key k (d1 ++ d2) = mem_key k d1 || mem_key k d2.
+Proof.
+  unfold mem_key. induction d1 as [|[k' v] d1 IH]; cbn; [destruct (assoc k d2); reflexivity|].
+  destruct (String.eqb k k'); [reflexivity|exact IH].
+Qed.
+
+Lemma mem_key_setdefault k (d : ndict) : mem_key k (setdefault k d) = true.
+Proof.
+  unfold setdefault. destruct (assoc k d) eqn:E; [unfold mem_key; rewrite E; reflexivity|].
+  rewrite mem_key_app. unfold mem_key at 2. cbn. rewrite String.eqb_refl. apply orb_true_r.
+Qed.
+
+Lemma mem_key_setdefault_mono k k' (d : ndict) : mem_key k d = true -> mem_key k (setdefault k' d) = true.
+Proof.
+  intro H. unfold setdefault. destruct (assoc k' d); [exact H|]. rewrite mem_key_app, H. reflexivity.
+Qed.
+
+Lemma mem_key_append_to k k' x (d : ndict) : mem_key k d = true -> mem_key k (append_to k' x d) = true.
+Proof.
+  unfold mem_key. induction d as [|[k'' v] d IH]; cbn; [auto|].
+  destruct (String.eqb k' k''); cbn; destruct (String.eqb k k''); auto.
+Qed.
+
+(* x <- m ;; return x *)
+Lemma bind_ret {A} (m : res A) : (v <- m ;; Ok v) = m.
+Proof. destruct m; reflexivity. Qed.
+
+(* a loop threading a state whose body raises nothing, as long as an invariant of the state holds, is a left fold *)
+Lemma foldM_inv {A S} (P : S -> Prop) (f : S -> A -> res S) (g : S -> A -> S) :
+  (forall s x, P s -> f s x = Ok (g s x) /\ P (g s x)) ->
+  forall l s, P s -> foldM f l s = Ok (fold_left g l s).
+Proof.
+  intro H. induction l as [|a l IH]; intros s Hs; cbn; [reflexivity|].
+  destruct (H s a Hs) as [E Hs']. rewrite E. cbn. apply IH. exact Hs'.
+Qed.
+
+Lemma foldM_pure {A S} (f : S -> A -> res S) (g : S -> A -> S) :
+  (forall s x, f s x = Ok (g s x)) -> forall l s, foldM f l s = Ok (fold_left g l s).
+Proof. intros H l s. apply (foldM_inv (fun _ => True)); [intros; split; [apply H|exact I]|exact I]. Qed.
 
 Section FunSites.
   Context {N : NumOps}.
